@@ -198,7 +198,7 @@ C05_BOUNDS = {"quick": dict(S=10, T=100, T_ms=64, T_rev=24, R=4, all_splits=16),
 
 def check_c05(prop, tier):
     res = common.Result(prop, tier)
-    B = C05_BOUNDS[tier]
+    B = common.bounds(C05_BOUNDS, tier)
     res.bounds = dict(B)
     # ---- tier A
     tasks = []
@@ -359,7 +359,7 @@ C06_BOUNDS = {"quick": dict(S=8, T=128), "thorough": dict(S=11, T=256)}
 
 def check_c06(prop, tier):
     res = common.Result(prop, tier)
-    B = C06_BOUNDS[tier]
+    B = common.bounds(C06_BOUNDS, tier)
     res.bounds = dict(B)
     tasks = []
     for n in range(1, B["S"] + 1):
@@ -476,7 +476,7 @@ C07_BOUNDS = {"quick": dict(S=7, T=20, RAM=3, DISK=3),
 
 def check_c07(prop, tier):
     res = common.Result(prop, tier)
-    B = C07_BOUNDS[tier]
+    B = common.bounds(C07_BOUNDS, tier)
     res.bounds = dict(B)
     costs = D.COSTS_QUICK if tier == "quick" else D.COSTS_ALL
     res.bounds["cost_vectors"] = [list(c) for c in costs]
